@@ -116,6 +116,23 @@ def check(case, rec=None):
         if ok and ok2 and np.abs(np.asarray(Eb) - np.asarray(Ea)).max() > 2e-10 * (1 + emax):
             fails.append(fail("objectivity", "eps_grain_matrix(m=%g) changes by %g when the grain is rotated" %
                               (m, np.abs(np.asarray(Eb) - np.asarray(Ea)).max()), m=m))
+    # the reference grain itself is refined in small steps (parts per million) through set_ubi while it is in use as a
+    # reference: strains are relative to the matrix it holds now
+    if case["refkind"] == "grain":
+        D = np.array([[1.0, 0.3, -0.2], [-0.25, 0.7, 0.1], [0.15, -0.1, -0.6]])
+        ref2 = grainmod.grain((np.eye(3) + 4e-6 * D) @ ubi0)
+        _ = (ref2.UB, ref2.U, ref2.B, ref2.unitcell, ref2.mt)
+        guard(g.eps_grain_matrix, ref2, 0.5)
+        for eps in (1e-7, 0.0):
+            ref2.set_ubi((np.eye(3) + eps * D) @ ubi0)
+        for m in MS[:2]:
+            ok, got2 = guard(g.eps_grain_matrix, ref2, m)
+            if not ok:
+                fails.append(exc_failure("eps_grain_matrix (reference updated by set_ubi)", got2))
+            elif not tens_close(got2, Es[m], emax):
+                fails.append(fail("closedform", "eps_grain_matrix(m=%g) against a reference grain that was updated by "
+                                  "4e-6 and 1e-7 through set_ubi after its cell had been read: off by %.3g" %
+                                  (m, np.abs(np.asarray(got2, float) - Es[m]).max()), fn="eps_grain_matrix", m=m))
     # first order agreement between all m, on what the library returned
     got = {}
     for m in MS:
